@@ -715,8 +715,11 @@ def stage_resolve(work, tier, seed):
             gtext[cid] = text
             cases.append({"id": cid, "grammar": text,
                           "cfg": {"algo": "glr", "tt": tt, "raw": True, "ps": False, "pse": False},
-                          "glr": {"algo": algo, "tt": tt, "ps": ps, "pse": pse,
-                                  "go": True if algo == "lr" else False},
+                          "glr": dict({"algo": algo, "tt": tt, "ps": ps, "pse": pse,
+                                       "go": True if algo == "lr" else False},
+                                      # every other LR case: parser_algo(LR) called last, after the
+                                      # preferences (the order rcomp uses); it changes nothing else
+                                      **({"lr_last": True} if algo == "lr" and (n + ps + pse) % 2 == 0 else {})),
                           "meta": {"nodis": False, "plain": False}})
     pres = run.run_vdrive(work, "resolve", cases)
     rs = table_shards(work, "resolve", pres, "full", module="CheckResolve")
@@ -874,6 +877,30 @@ def stage_lex(work, tier, seed):
                 # the GLR parser with the same strategies and grammar order on, for C07
                 case["glr"] = {"algo": "glr", "ms": ms, "lm": lm, "go": True, "partial": True}
             cases.append(case)
+    # context grammars: the overlapping terminals follow a reduction in different left contexts
+    for n_, (gid, g) in enumerate(lex_sets(seed + 1000, 40 if tier == "quick" else 300)):
+        lts = g["terms"]
+        k_ = len(lts)
+        terms = [["P%d" % j, "str", str(j), "", None, None] for j in range(k_)] + [["X", "str", "=", "", None, None]] + lts
+        g2 = {"rules": [["S", [{"rhs": ["P%d" % j, "A", lts[j][0]], "meta": ""} for j in range(k_)]],
+                        ["A", [{"rhs": ["X"], "meta": ""}]]], "terms": terms}
+        text = G.render(g2)
+        rng = random.Random("lexctx-%s" % gid)
+        ins = []
+        iid = 0
+        for w in rng.sample(LEX_WINDOWS, 5 if tier == "quick" else 10):
+            for j in range(k_):
+                iid += 1
+                ins.append({"iid": iid, "text": "%d = %s" % (j, w), "lex": [], "lat": lex_match_table(g2, w),
+                            "partial": True, "meta": {"ctx": True, "path": [j + 1, k_ + 1], "li": k_ + 2 + j}})
+        for ms in (True, False):
+            for lm in (True, False):
+                cid = "%s+ctx|lr/ms%d/lm%d/go1" % (gid, ms, lm)
+                gtext[cid] = text
+                for x in ins:
+                    inputs["%s#%d" % (cid, x["iid"])] = [x["text"], x["lat"]]
+                cases.append({"id": cid, "grammar": text, "cfg": {"algo": "lr", "ms": ms, "lm": lm, "go": True, "partial": True},
+                              "meta": {"nodis": False, "plain": True}, "inputs": ins, "max_trees": 10})
     pres = run.run_vdrive(work, "lex", cases)
     envs = [{"DUMPS": p + ".dumps.ndjson", "TRACES": p + ".traces.ndjson"} for p in pres
             if os.path.getsize(p + ".traces.ndjson") > 0]
@@ -1729,6 +1756,23 @@ _cd("rule_two_keys", [dict(name="E", meta=dict(NOMETA, assoc="right", prio=1),
                                  dict(syms=[_s("E"), _s("Tb"), _s("E")], meta=dict(NOMETA, assoc="left")),
                                  dict(syms=[_s("Num")], meta=dict(NOMETA, nops=True))])])
 _cd("inline_sugar", [dict(name="S", meta=NOMETA, alts=[dict(syms=[_s("a", "*", "", True), _s("b", "?", "", True), _s("c", "", "", True)], meta=NOMETA)])])
+# a user rule named like the helper of a repetition the document uses, written before and after the use
+REJECT_DOCS = {"clash_plus_after", "clash_plus_before", "clash_opt_after", "clash_star_after", "clash_star_one_after"}
+_cd("clash_plus_after", [dict(name="S", meta=NOMETA, alts=[dict(syms=[_s("R1", "+"), _s("Tc")], meta=NOMETA)]),
+                         dict(name="R1", meta=NOMETA, alts=[dict(syms=[_s("Ta")], meta=NOMETA)]),
+                         dict(name="R11", meta=NOMETA, alts=[dict(syms=[_s("Tb")], meta=NOMETA)])])
+_cd("clash_plus_before", [dict(name="S", meta=NOMETA, alts=[dict(syms=[_s("R11"), _s("R1", "+")], meta=NOMETA)]),
+                          dict(name="R11", meta=NOMETA, alts=[dict(syms=[_s("Tb")], meta=NOMETA)]),
+                          dict(name="R1", meta=NOMETA, alts=[dict(syms=[_s("Ta")], meta=NOMETA)])])
+_cd("clash_opt_after", [dict(name="S", meta=NOMETA, alts=[dict(syms=[_s("R1", "?"), _s("Tc")], meta=NOMETA)]),
+                        dict(name="R1", meta=NOMETA, alts=[dict(syms=[_s("Ta")], meta=NOMETA)]),
+                        dict(name="R1Opt", meta=NOMETA, alts=[dict(syms=[_s("Tb")], meta=NOMETA)])])
+_cd("clash_star_after", [dict(name="S", meta=NOMETA, alts=[dict(syms=[_s("R1", "*"), _s("Tc")], meta=NOMETA)]),
+                         dict(name="R1", meta=NOMETA, alts=[dict(syms=[_s("Ta")], meta=NOMETA)]),
+                         dict(name="R10", meta=NOMETA, alts=[dict(syms=[_s("Tb")], meta=NOMETA)])])
+_cd("clash_star_one_after", [dict(name="S", meta=NOMETA, alts=[dict(syms=[_s("R1", "*"), _s("Tc")], meta=NOMETA)]),
+                             dict(name="R1", meta=NOMETA, alts=[dict(syms=[_s("Ta")], meta=NOMETA)]),
+                             dict(name="R11", meta=NOMETA, alts=[dict(syms=[_s("Tb")], meta=NOMETA)])])
 _cd("empty_mid", [dict(name="S", meta=NOMETA, alts=[dict(syms=[_s("Ta"), _s("EMPTY"), _s("Tb")], meta=NOMETA),
                                                     dict(syms=[_s("EMPTY")], meta=NOMETA)])])
 
@@ -1762,11 +1806,11 @@ def stage_builder(work, tier, seed):
             aborts.append(dict(id=r["id"], cls=r.get("outcome"), msg=(r.get("msg") or r.get("g", {}).get("msg", ""))[:200]))
         if "err" in r.get("g", {"err": 1}):
             rejected.append((r["id"], r.get("g", {}).get("err"), r.get("msg", "")[:100]))
-            recs.append({"id": r["id"], "doc": norm_doc(meta[r["id"]][0]),
+            recs.append({"id": r["id"], "doc": norm_doc(meta[r["id"]][0]), "reject": r["id"] in REJECT_DOCS,
                          "g": {"err": str(r.get("g", {}).get("err", r.get("outcome", "?"))),
                                "msg": (r.get("msg") or r.get("g", {}).get("msg", ""))[-160:]}})
             continue
-        recs.append({"id": r["id"], "doc": norm_doc(meta[r["id"]][0]), "g": r["g"]})
+        recs.append({"id": r["id"], "doc": norm_doc(meta[r["id"]][0]), "g": r["g"], "reject": r["id"] in REJECT_DOCS})
     envs = []
     for k in range(run.NCPU):
         part = recs[k::run.NCPU]
@@ -1832,7 +1876,7 @@ def stage_codegen(work, tier, seed):
                     if kk in cfgv:
                         st[kk] = cfgv[kk]
                 insts.append({"name": "p%d_%s" % (k, gen), "cid": cid, "grammar": text, "settings": st,
-                              "inputs": ins, "pair": k})
+                              "inputs": ins, "pair": k, "history": True})
     pres = run.run_vdrive(work, "codegen", cases, shards=4)
     dumps = {}
     for p in pres:
